@@ -44,8 +44,10 @@ type TypedSpec struct {
 	// Topo 1: START -> a -> b -> END, START -> r -> c -> END; r asks for a rerun on its first attempt (its
 	// state pre-handler rebuilds the input), so the checkpoint is assembled mid-step: a's answer has been
 	// folded into b's channel.
+	// Topo 2: START -> p -> g -> END where g is the topo-0 graph as a NESTED graph (the interrupt points are inside
+	// it: the nil value sits in the nested checkpoint; bit 3 of Points: also before g).
 	Topo int    `json:"topo"`
-	Mode string `json:"mode"` // pregel | dag | wf (wf: topo 0 only)
+	Mode string `json:"mode"` // pregel | dag | wf (wf: not topo 1; topo 2: the nested graph is a Workflow, the outer one a Graph)
 	In   int    `json:"in"`   // value code of the graph input (0..4, 6, 7; topo 1: not nil); 6: "st", handed to Collect / Transform as the chunks "s", "", "t"
 	Val  int    `json:"val"`  // value code of a's answer
 	Prod int    `json:"prod"` // a: 0 invokable, 1 streamable
@@ -63,10 +65,10 @@ type TypedSpec struct {
 }
 
 func (t *TypedSpec) validate() error {
-	if t.Topo < 0 || t.Topo > 1 || t.Val < 0 || t.Val > tvMax || t.In < 0 || t.In > tvMax || len(t.Plan) == 0 {
+	if t.Topo < 0 || t.Topo > 2 || t.Val < 0 || t.Val > tvMax || t.In < 0 || t.In > tvMax || len(t.Plan) == 0 {
 		return fmt.Errorf("typed: field out of range")
 	}
-	if t.Mode != "pregel" && t.Mode != "dag" && t.Mode != "wf" || t.Mode == "wf" && t.Topo != 0 {
+	if t.Mode != "pregel" && t.Mode != "dag" && t.Mode != "wf" || t.Mode == "wf" && t.Topo == 1 {
 		return fmt.Errorf("typed: bad mode %q for topo %d", t.Mode, t.Topo)
 	}
 	if (t.Val == tvNoChunk || t.Val == tvChunks) && t.Prod != 1 {
@@ -75,7 +77,7 @@ func (t *TypedSpec) validate() error {
 	if t.In == tvNoChunk || t.Topo == 1 && t.In == tvNil {
 		return fmt.Errorf("typed: bad input code %d", t.In)
 	}
-	if t.Topo == 0 && t.Points&7 == 0 {
+	if t.Topo != 1 && t.Points&7 == 0 {
 		return fmt.Errorf("typed: no interrupt point")
 	}
 	if t.Conc < 0 || t.Conc == 1 || t.Conc > 6 {
@@ -294,24 +296,8 @@ func (t *TypedSpec) points() (before, after []string) {
 	return
 }
 
-func (t *TypedSpec) compile(rec *trec, withIntr bool, store compose.CheckPointStore) (compose.Runnable[any, map[string]any], error) {
-	ctx := context.Background()
-	var copts []compose.GraphCompileOption
-	if t.Mode == "dag" {
-		copts = append(copts, compose.WithNodeTriggerMode(compose.AllPredecessor))
-	}
-	if withIntr {
-		before, after := t.points()
-		if len(before) > 0 {
-			copts = append(copts, compose.WithInterruptBeforeNodes(before))
-		}
-		if len(after) > 0 {
-			copts = append(copts, compose.WithInterruptAfterNodes(after))
-		}
-	}
-	if store != nil {
-		copts = append(copts, compose.WithCheckPointStore(store))
-	}
+// inner: the graph that holds a, b (and r, c): the whole thing for topo 0 / 1, the nested graph for topo 2.
+func (t *TypedSpec) inner(rec *trec) (compose.AnyGraph, error) {
 	var gopts []compose.NewGraphOption
 	if t.State || t.Topo == 1 {
 		gopts = append(gopts, compose.WithGenLocalState(func(ctx context.Context) *TSt { return &TSt{} }))
@@ -321,7 +307,7 @@ func (t *TypedSpec) compile(rec *trec, withIntr bool, store compose.CheckPointSt
 		wf.AddLambdaNode("a", t.producer(rec)).AddInput(compose.START)
 		wf.AddLambdaNode("b", t.consumer(rec, "b", t.Cons)).AddInput("a")
 		wf.End().AddInput("b", compose.ToField("b"))
-		return wf.Compile(ctx, copts...)
+		return wf, nil
 	}
 	g := compose.NewGraph[any, map[string]any](gopts...)
 	if err := g.AddLambdaNode("a", t.producer(rec)); err != nil {
@@ -353,7 +339,68 @@ func (t *TypedSpec) compile(rec *trec, withIntr bool, store compose.CheckPointSt
 			return nil, err
 		}
 	}
-	return g.Compile(ctx, copts...)
+	return g, nil
+}
+
+func (t *TypedSpec) compile(rec *trec, withIntr bool, store compose.CheckPointStore) (compose.Runnable[any, map[string]any], error) {
+	ctx := context.Background()
+	var copts []compose.GraphCompileOption // of the graph that holds a and b
+	if t.Mode == "dag" {
+		copts = append(copts, compose.WithNodeTriggerMode(compose.AllPredecessor))
+	}
+	if withIntr {
+		before, after := t.points()
+		if len(before) > 0 {
+			copts = append(copts, compose.WithInterruptBeforeNodes(before))
+		}
+		if len(after) > 0 {
+			copts = append(copts, compose.WithInterruptAfterNodes(after))
+		}
+	}
+	in, err := t.inner(rec)
+	if err != nil {
+		return nil, err
+	}
+	if t.Topo == 2 {
+		// START -> p -> g -> END: g is the nested graph (its interrupt points and trigger mode travel with the node)
+		var oopts []compose.GraphCompileOption
+		if t.Mode != "pregel" {
+			oopts = append(oopts, compose.WithNodeTriggerMode(compose.AllPredecessor))
+		}
+		if withIntr && t.Points&8 != 0 {
+			oopts = append(oopts, compose.WithInterruptBeforeNodes([]string{"g"}))
+		}
+		if store != nil {
+			oopts = append(oopts, compose.WithCheckPointStore(store))
+		}
+		outer := compose.NewGraph[any, map[string]any]()
+		pass := compose.InvokableLambda(func(ctx context.Context, in any) (any, error) {
+			rec.begin(ctx, "p", tdesc(in))
+			return in, nil
+		})
+		if err := outer.AddLambdaNode("p", pass); err != nil {
+			return nil, err
+		}
+		if err := outer.AddGraphNode("g", in, compose.WithGraphCompileOptions(copts...)); err != nil {
+			return nil, err
+		}
+		for _, e := range [][2]string{{compose.START, "p"}, {"p", "g"}, {"g", compose.END}} {
+			if err := outer.AddEdge(e[0], e[1]); err != nil {
+				return nil, err
+			}
+		}
+		return outer.Compile(ctx, oopts...)
+	}
+	if store != nil {
+		copts = append(copts, compose.WithCheckPointStore(store))
+	}
+	switch g := in.(type) {
+	case *compose.Workflow[any, map[string]any]:
+		return g.Compile(ctx, copts...)
+	case *compose.Graph[any, map[string]any]:
+		return g.Compile(ctx, copts...)
+	}
+	return nil, fmt.Errorf("typed: unexpected graph value %T", in)
 }
 
 type TSeg struct {
@@ -486,7 +533,7 @@ const typedRounds = 3
 // callerIn: the input of concurrent caller i (caller 0: the case's own).
 func (t *TypedSpec) callerIn(i int) int {
 	ins := []int{tvStr, tvMap, tvNilInMap, tvEmptyMap, tvChunks, tvEmptyStr}
-	if t.Topo == 0 {
+	if t.Topo != 1 {
 		ins = append(ins, tvNil)
 	}
 	pos := 0
@@ -746,8 +793,11 @@ func runTyped(c *Case) lib.Result {
 // GenerateTyped draws a member of the family.
 func GenerateTyped(r *lib.Rng) *TypedSpec {
 	t := &TypedSpec{}
-	if r.Chance(2, 5) {
+	switch x := r.Intn(10); {
+	case x < 4:
 		t.Topo = 1
+	case x < 6:
+		t.Topo = 2
 	}
 	switch x := r.Intn(10); {
 	case x < 4:
@@ -772,9 +822,12 @@ func GenerateTyped(r *lib.Rng) *TypedSpec {
 		ins = []int{tvStr, tvMap, tvNilInMap, tvEmptyMap, tvChunks}
 	}
 	t.In = ins[r.Intn(len(ins))]
-	if t.Topo == 0 {
+	if t.Topo != 1 {
 		t.Points = []int{1, 2, 4, 4, 5, 3, 6, 7}[r.Intn(8)]
 		t.State = r.Chance(1, 2)
+		if t.Topo == 2 && r.Chance(1, 3) {
+			t.Points |= 8
+		}
 	} else {
 		t.Points = []int{0, 0, 4, 8, 12, 2}[r.Intn(6)]
 		t.State = true
